@@ -80,11 +80,13 @@ type hScenario struct {
 
 	// store content and fault (drawn on first use)
 	storeDrawn bool
+	maxEntries int
 	entries    []hEntry
 	storeErr   bool
 
 	// Match
 	matchFixed bool // H16b: Match succeeds with an empty selection
+	maxMatched int
 	matchCalls int
 	matchErr   bool
 	matchIdx   []int // indices (into the presentation's credentials) of the returned credentials
@@ -146,7 +148,7 @@ func hDrawStore() {
 		return
 	}
 	vTag("store.n")
-	n := vLen(0, vParam("entries", 1))
+	n := vLen(0, hS.maxEntries)
 	for i := 0; i < n; i++ {
 		e := hEntry{service: "another-service", subject: "did:web:somebody.else"}
 		vTag("entry.sameService")
@@ -191,7 +193,7 @@ func hMatch(pd pe.PresentationDefinition, vcs []vc.VerifiableCredential) ([]vc.V
 		return nil, nil, pe.ErrNoCredentials
 	}
 	vTag("match.n")
-	n := vLen(0, vParam("matched", 2))
+	n := vLen(0, hS.maxMatched)
 	if n > 0 && len(vcs) == 0 {
 		// a descriptor without any candidate credential cannot be matched
 		hS.matchErr = true
@@ -506,9 +508,35 @@ func (c *hCase) finish() {
 	vSetField(&c.vp, "token", jwt.Token(c.tok))
 }
 
+// drawCredentials: up to max credentials, each with an optional expirationDate. A retraction gets at most one,
+// without expiration: the retraction rule only looks at the number of credentials.
+func (c *hCase) drawCredentials(max int) {
+	if c.retract && max > 1 {
+		max = 1
+	}
+	vTag("vp.credentials")
+	nc := vLen(0, max)
+	for i := 0; i < nc; i++ {
+		vTag("credential.expirationDate.present")
+		c.addCredential(!c.retract && vBool())
+	}
+}
+
+func (c *hCase) addCredential(withExpiration bool) {
+	var cred vc.VerifiableCredential
+	var e hInstant
+	if withExpiration {
+		e = hDrawInstant("credential.expirationDate", false)
+		t := e.t
+		cred.ExpirationDate = &t
+	}
+	c.credExp = append(c.credExp, e)
+	c.vp.VerifiableCredential = append(c.vp.VerifiableCredential, cred)
+}
+
 func hNewCase() *hCase {
 	c := &hCase{}
-	hS = &hScenario{signer: -1}
+	hS = &hScenario{signer: -1, maxEntries: vParam("entries", 1), maxMatched: vParam("matched", 2)}
 	c.m = &Module{vcrInstance: hVCR{}, store: &sqlStore{}}
 	c.tok = &hToken{}
 
@@ -537,24 +565,7 @@ func hNewCase() *hCase {
 			c.retract = true
 		}
 	}
-	maxCreds := vParam("creds", 2)
-	if c.retract && maxCreds > 1 {
-		maxCreds = 1 // the retraction rule only looks at the number of credentials
-	}
-	vTag("vp.credentials")
-	nc := vLen(0, maxCreds)
-	for i := 0; i < nc; i++ {
-		var cred vc.VerifiableCredential
-		var e hInstant
-		vTag("credential.expirationDate.present")
-		if !c.retract && vBool() {
-			e = hDrawInstant("credential.expirationDate", false)
-			t := e.t
-			cred.ExpirationDate = &t
-		}
-		c.credExp = append(c.credExp, e)
-		c.vp.VerifiableCredential = append(c.vp.VerifiableCredential, cred)
-	}
+	c.drawCredentials(vParam("creds", 2))
 	c.finish()
 	return c
 }
@@ -562,18 +573,22 @@ func hNewCase() *hCase {
 func H16a() {
 	c := hNewCase()
 	err := c.m.verifyRegistration(c.def, c.vp)
-	tok := c.tok
+	hCheckVerdict("H16a", c, err)
+}
 
+// hCheckVerdict: accepted => every clause of the property's first sentence (and the retraction clause).
+func hCheckVerdict(id string, c *hCase, err error) {
+	tok := c.tok
 	if err != nil {
 		vCover("rejected")
 		return
 	}
 	vCover("accepted")
 	// a verifiable JWT presentation ...
-	vAssert(c.format == vc.JWTPresentationProofFormat, "H16a.jwt_format: accepted a presentation that is not in JWT format")
-	vAssert(c.hasID, "H16a.has_id: accepted a presentation without id")
-	vAssert(hS.verifyCalls > 0 && hS.verifyAccepted, "H16a.vp_verified: accepted a presentation whose signature verification did not succeed")
-	vAssert(hS.verifyCalls > 0 && hS.verifyVCs, "H16a.credentials_verified: accepted a presentation without verifying its credentials")
+	vAssert(c.format == vc.JWTPresentationProofFormat, id+".jwt_format: accepted a presentation that is not in JWT format")
+	vAssert(c.hasID, id+".has_id: accepted a presentation without id")
+	vAssert(hS.verifyCalls > 0 && hS.verifyAccepted, id+".vp_verified: accepted a presentation whose signature verification did not succeed")
+	vAssert(hS.verifyCalls > 0 && hS.verifyVCs, id+".credentials_verified: accepted a presentation without verifying its credentials")
 	// ... addressed to that service ...
 	addressed := false
 	if tok.audDrawn {
@@ -591,16 +606,16 @@ func H16a() {
 			}
 		}
 	}
-	vAssert(addressed, "H16a.audience: accepted a presentation whose audience does not contain the service id")
+	vAssert(addressed, id+".audience: accepted a presentation whose audience does not contain the service id")
 	// ... within the service's maximum validity ...
-	vAssert(tok.expDrawn && hS.exp.present, "H16a.has_expiration: accepted a presentation without expiration")
-	vAssert(len(hS.clockSec) > 0, "H16a.clock_read: accepted without reading the clock")
+	vAssert(tok.expDrawn && hS.exp.present, id+".has_expiration: accepted a presentation without expiration")
+	vAssert(len(hS.clockSec) > 0, id+".clock_read: accepted without reading the clock")
 	// exp - now0 = remSec s + remNsec ns by construction; |remSec| <= 2^33 and max <= 2^32, so both sides fit in 63 bits
-	vAssert(hS.remSec*1000000000+hS.remNsec <= c.maxValid*1000000000, "H16a.max_validity: accepted a presentation that is valid longer than the service's maximum validity")
-	vAssert(hS.remSec > 0 || (hS.remSec == 0 && hS.remNsec > 0), "H16a.not_expired: accepted a presentation that is already expired")
-	vAssert(!hS.verifyValidAt, "H16a.verified_now: presentation was verified for another instant than now")
+	vAssert(hS.remSec*1000000000+hS.remNsec <= c.maxValid*1000000000, id+".max_validity: accepted a presentation that is valid longer than the service's maximum validity")
+	vAssert(hS.remSec > 0 || (hS.remSec == 0 && hS.remNsec > 0), id+".not_expired: accepted a presentation that is already expired")
+	vAssert(!hS.verifyValidAt, id+".verified_now: presentation was verified for another instant than now")
 	// ... signed by a DID of an allowed method ...
-	vAssert(hS.signer >= 0 && hSigners[hS.signer].isDID, "H16a.signer_is_did: accepted a presentation whose signer is not a DID")
+	vAssert(hS.signer >= 0 && hSigners[hS.signer].isDID, id+".signer_is_did: accepted a presentation whose signer is not a DID")
 	if len(c.methods) > 0 {
 		allowed := false
 		for _, m := range c.methods {
@@ -608,7 +623,7 @@ func H16a() {
 				allowed = true
 			}
 		}
-		vAssert(allowed, "H16a.did_method_allowed: accepted a presentation signed by a DID of a method the service does not allow")
+		vAssert(allowed, id+".did_method_allowed: accepted a presentation signed by a DID of a method the service does not allow")
 		vCover("accepted-method-listed")
 	} else {
 		vCover("accepted-any-method")
@@ -619,11 +634,11 @@ func H16a() {
 		for _, e := range c.credExp {
 			if e.present {
 				vCover("accepted-credential-with-expiration")
-				vAssert(!hAfter(hS.exp, e), "H16a.not_outliving_credentials: accepted a presentation that is valid longer than one of its credentials")
+				vAssert(!hAfter(hS.exp, e), id+".not_outliving_credentials: accepted a presentation that is valid longer than one of its credentials")
 			}
 		}
 		// ... whose credentials all and only fulfil the presentation definition
-		vAssert(hS.matchCalls == 1 && !hS.matchErr, "H16a.definition_matched: accepted a registration that does not fulfil the presentation definition")
+		vAssert(hS.matchCalls == 1 && !hS.matchErr, id+".definition_matched: accepted a registration that does not fulfil the presentation definition")
 		dup := false
 		for a := 0; a < len(hS.matchIdx); a++ {
 			for b := a + 1; b < len(hS.matchIdx); b++ {
@@ -642,18 +657,18 @@ func H16a() {
 			if !matched && dup {
 				vClass("one credential selected for several input descriptors")
 			}
-			vAssert(matched, "H16a.all_credentials_matched: accepted a registration with a credential that the presentation definition did not select")
+			vAssert(matched, id+".all_credentials_matched: accepted a registration with a credential that the presentation definition did not select")
 		}
-		if len(c.credExp) == 2 {
+		if len(c.credExp) >= 2 {
 			vCover("accepted-two-credentials")
 		}
-		vAssert(!tok.jtiDrawn && !hS.storeDrawn, "H16a.registration_path: a registration consulted retraction data")
+		vAssert(!tok.jtiDrawn && !hS.storeDrawn, id+".registration_path: a registration consulted retraction data")
 	} else {
 		vCover("accepted-retraction")
-		vAssert(len(c.credExp) == 0, "H16a.retraction_without_credentials: accepted a retraction that contains credentials")
-		vAssert(tok.jtiDrawn && tok.jtiSet, "H16a.retraction_has_jti: accepted a retraction without retract_jti claim")
+		vAssert(len(c.credExp) == 0, id+".retraction_without_credentials: accepted a retraction that contains credentials")
+		vAssert(tok.jtiDrawn && tok.jtiSet, id+".retraction_has_jti: accepted a retraction without retract_jti claim")
 		jti, isString := tok.jti.(string)
-		vAssert(isString && jti != "", "H16a.retraction_jti_string: accepted a retraction whose retract_jti is not a non-empty string")
+		vAssert(isString && jti != "", id+".retraction_jti_string: accepted a retraction whose retract_jti is not a non-empty string")
 		found := false
 		if hS.storeDrawn && !hS.storeErr {
 			for _, e := range hS.entries {
@@ -662,8 +677,8 @@ func H16a() {
 				}
 			}
 		}
-		vAssert(found, "H16a.retraction_of_own_entry: accepted a retraction that does not refer to an existing entry of its signer on this service")
-		vAssert(hS.matchCalls == 0, "H16a.retraction_path: a retraction was matched against the presentation definition")
+		vAssert(found, id+".retraction_of_own_entry: accepted a retraction that does not refer to an existing entry of its signer on this service")
+		vAssert(hS.matchCalls == 0, id+".retraction_path: a retraction was matched against the presentation definition")
 	}
 }
 
@@ -671,7 +686,7 @@ func H16a() {
 // Match and signatures fine; the caller sets type, claims and clock.
 func hFixedCase(types []string) *hCase {
 	c := &hCase{}
-	hS = &hScenario{signer: 0, serviceID: "svc", matchFixed: true, sigFixed: true}
+	hS = &hScenario{signer: 0, serviceID: "svc", maxEntries: vParam("entries4", 2), maxMatched: vParam("matched3", 2)}
 	c.m = &Module{vcrInstance: hVCR{}, store: &sqlStore{}}
 	c.tok = &hToken{audDrawn: true, aud: []string{"other", "svc"}}
 	c.format = vc.JWTPresentationProofFormat
@@ -679,8 +694,58 @@ func hFixedCase(types []string) *hCase {
 	c.maxValid = 3600
 	for _, t := range types {
 		c.vp.Type = append(c.vp.Type, hURI(t))
+		if t == "RetractedVerifiablePresentation" {
+			c.retract = true
+		}
 	}
 	return c
+}
+
+// H16c: the registration rules in depth. Addressing, format, id and signer are fixed and valid; symbolic: exp and
+// the clock, the maximum validity, up to `creds3` credentials with optional expiration, the Match result (error, or up
+// to `matched3` selected credentials, repetitions included) and the signature verdict.
+func H16c() {
+	c := hFixedCase(hTypes[0])
+	vTag("service.max_validity")
+	c.maxValid = vRange(1, 1<<32)
+	c.drawCredentials(vParam("creds3", 2))
+	c.finish()
+	err := c.m.verifyRegistration(c.def, c.vp)
+	hCheckVerdict("H16c", c, err)
+}
+
+func H16c_twin() {
+	c := hFixedCase(hTypes[0])
+	c.addCredential(true)
+	c.finish()
+	if c.m.verifyRegistration(c.def, c.vp) == nil && len(hS.matchIdx) == 1 && hS.remSec == 3600 {
+		vAssert(false, "H16c_twin.reach: reachable")
+	}
+}
+
+// H16d: the retraction rules in depth. Addressing, format, id, signer and exp handling as in H16c; symbolic: 0-1
+// credentials, retract_jti of every JSON type, up to `entries4` store rows (this/another service, this/another
+// signer, arbitrary id), a store fault, and the signature verdict.
+func H16d() {
+	c := hFixedCase(hTypes[1+vChoice(2)])
+	c.drawCredentials(1)
+	c.finish()
+	err := c.m.verifyRegistration(c.def, c.vp)
+	hCheckVerdict("H16d", c, err)
+	if err != nil && c.tok.jtiDrawn {
+		switch c.tok.jtiKind {
+		case hJtiAbsent, hJtiNull, hJtiBool, hJtiNumber, hJtiArray, hJtiObject:
+			vCover("rejected-retract_jti-not-a-string")
+		}
+	}
+}
+
+func H16d_twin() {
+	c := hFixedCase(hTypes[2])
+	c.finish()
+	if c.m.verifyRegistration(c.def, c.vp) == nil && len(hS.entries) == 2 && hS.entries[0].service != "svc" {
+		vAssert(false, "H16d_twin.reach: reachable")
+	}
 }
 
 // H16a_twin: a retraction of an existing entry gets through the real code.
@@ -709,6 +774,7 @@ func hWithinMaxValidity(exp hInstant, nowSec, nowNsec, max int) bool {
 // verification.
 func H16b() {
 	c := hFixedCase(hTypes[0])
+	hS.matchFixed, hS.sigFixed = true, true
 	vTag("service.max_validity")
 	c.maxValid = vRange(1, 1<<32)
 	c.tok.expDrawn = true
@@ -753,6 +819,7 @@ func H16b() {
 
 func H16b_twin() {
 	c := hFixedCase(hTypes[0])
+	hS.matchFixed, hS.sigFixed = true, true
 	c.tok.expDrawn = true
 	hS.exp = hDrawInstant("exp", true)
 	c.finish()
